@@ -68,13 +68,15 @@ class Counter_:
 
 
 class SortedItems:
-    def __init__(self, uni):
-        self.uni = sorted(uni)
+    def __init__(self, uni, presorted=False, present=()):
+        self.uni = list(uni) if presorted else sorted(uni)
+        self.present = set(present)       # symbols known to be there on this path
 
 
 class UnsortedItems:
-    def __init__(self, uni):
+    def __init__(self, uni, present=()):
         self.uni = list(uni)
+        self.present = set(present)
 
 
 class Graph:
@@ -205,6 +207,18 @@ class KeySet:
 
     def __init__(self, keys, ordered=True):
         self.keys, self.ordered = list(keys), ordered
+
+
+def nonempty_part(v: Str) -> Str:
+    """the non-empty strings of `v` when `v` is  [body]  or an alternative with an empty branch (what a truth test on the
+    text leaves); anything else unchanged"""
+    if len(v.p) == 1 and v.p[0][0] == "opt":
+        return nonempty_part(v.p[0][1])
+    if len(v.p) == 1 and v.p[0][0] == "alt":
+        alts = [nonempty_part(a) for a in v.p[0][1] if a.p]
+        if alts:
+            return alts[0] if len(alts) == 1 else Str([("alt", alts)])
+    return v
 
 
 def join_str(a: Str, b: Str) -> Str:
@@ -353,6 +367,31 @@ class ShapeInterp:
             env = dict(env)
             env[name] = env[name].plus(v, bylabel=isinstance(k, Int))
             return [env]
+        if isinstance(st, ast.Assign) and isinstance(st.value, ast.IfExp) and len(st.targets) == 1 and isinstance(st.targets[0], ast.Name):
+            # x = A if T else B  with values that are not texts: the two branches as two paths (as an if statement would be)
+            try:
+                v = self.ev(fi, st.value, env)
+            except AnalysisError as ex:
+                if "used as string" not in str(ex):
+                    raise
+                v = None
+            if v is None:
+                as_if = ast.If(test=st.value.test, body=[ast.Assign(targets=st.targets, value=st.value.body, lineno=st.lineno, col_offset=st.col_offset)],
+                               orelse=[ast.Assign(targets=st.targets, value=st.value.orelse, lineno=st.lineno, col_offset=st.col_offset)], lineno=st.lineno, col_offset=st.col_offset)
+                return self.stmt(fi, as_if, env, outs, loop)
+        if isinstance(st, ast.Assign) and len(st.targets) == 1 and isinstance(st.targets[0], ast.Name) and isinstance(st.value, ast.Compare) and len(st.value.ops) == 1 \
+                and isinstance(st.value.ops[0], (ast.In, ast.NotIn)) and isinstance(self._peek(fi, st.value.comparators[0], env), Counter_):
+            # flag = "C" in element_counts: one path per answer, the counter refined along with it
+            out = []
+            for truth, e2 in self.refine(fi, st.value, env):
+                e2 = dict(e2)
+                e2[st.targets[0].id] = truth
+                out.append(e2)
+            return out
+        if isinstance(st, ast.FunctionDef):
+            env = dict(env)
+            env[st.name] = ("localfn", st)
+            return [env]
         if isinstance(st, ast.Assign):
             v = self.ev(fi, st.value, env)
             env = dict(env)
@@ -425,6 +464,108 @@ class ShapeInterp:
             if d is not None:
                 return self.stmt(fi, d, env, outs, loop)
         raise AnalysisError(f"shape interpreter: statement {type(st).__name__} at {fi.loc(st)} not supported")
+
+    def _selects_first(self, fi, key) -> int:
+        """1 when the sort key is `itemgetter(0)` / `lambda x: x[0]`, -1 for `lambda x: -x[0]`, else 0"""
+        if isinstance(key, ast.Call) and not key.keywords and len(key.args) == 1 and isinstance(key.args[0], ast.Constant) and key.args[0].value == 0:
+            r_ = self.repo.resolve_dotted(fi.module, key.func) if isinstance(key.func, (ast.Name, ast.Attribute)) else None
+            return 1 if r_ and r_[0] == "ext" and r_[1] == "operator.itemgetter" else 0
+        if isinstance(key, ast.Lambda) and len(key.args.args) == 1:
+            body, sign = key.body, 1
+            if isinstance(body, ast.UnaryOp) and isinstance(body.op, ast.USub):
+                body, sign = body.operand, -1
+            if isinstance(body, ast.Subscript) and isinstance(body.value, ast.Name) and body.value.id == key.args.args[0].arg \
+                    and isinstance(body.slice, ast.Constant) and body.slice.value == 0:
+                return sign
+        return 0
+
+    def _peek(self, fi, e, env):
+        try:
+            return self.ev(fi, e, env)
+        except AnalysisError:
+            return None
+
+    def _key_sorted(self, fi, call, env, symbols, pairs: bool):
+        """the element symbols in the order `sorted(..., key=K)` gives them: K is evaluated on every symbol with the
+        sample evaluator (what it reads besides the symbol must be known on this path; a count is unknown) -> list of
+        symbols, or AnalysisError when the order cannot be computed"""
+        from .check import Ctx
+        from .concrete import PState, _Unknown, Unsupported, UnknownValue
+        from .rules.common import sample_evaluator
+        kw = {k.arg: k.value for k in call.keywords}
+        if set(kw) - {"key", "reverse"}:
+            raise AnalysisError(f"shape interpreter: sorted(...) with {sorted(kw)} at {fi.loc(call)}")
+        rev = False
+        if "reverse" in kw:
+            if not (isinstance(kw["reverse"], ast.Constant) and isinstance(kw["reverse"].value, bool)):
+                raise AnalysisError(f"shape interpreter: sorted(..., reverse=<computed>) at {fi.loc(call)}")
+            rev = kw["reverse"].value
+        if getattr(self, "_pe", None) is None or self._pe[0] is not fi:
+            pe, cenv = sample_evaluator(Ctx(self.repo), fi)
+            self._pe = (fi, pe, cenv)
+        _, pe, cenv = self._pe
+        st0 = PState(dict(cenv))
+        for k_, v_ in env.items():
+            if isinstance(v_, bool):
+                st0.env[k_] = v_
+            elif isinstance(v_, Str) and len(v_.p) == 1 and v_.p[0][0] == "lit":
+                st0.env[k_] = v_.p[0][1]
+            elif isinstance(v_, tuple) and v_[:1] == ("key",):
+                st0.env[k_] = v_[1]
+            elif isinstance(v_, tuple) and v_[:1] == ("localfn",):
+                continue
+            else:
+                st0.env[k_] = _Unknown()
+        def run_stmt(node, st_):
+            go, leave = pe.stmt(node, st_)
+            if len(go) != 1 or leave:
+                raise AnalysisError(f"shape interpreter: `{short(node)}` at {fi.loc(call)} not followed by the sample evaluator")
+            return go[0]
+        for k_, v_ in env.items():
+            if isinstance(v_, tuple) and v_[:1] == ("localfn",):
+                st0 = run_stmt(v_[1], st0)
+        if "key" in kw:
+            if isinstance(kw["key"], ast.Name) and kw["key"].id not in st0.env:
+                # a module-level function as the key: called by name
+                key_call = kw["key"]
+            else:
+                bind_ = ast.Assign(targets=[ast.Name(id="__key__", ctx=ast.Store())], value=kw["key"])
+                ast.copy_location(bind_, call)
+                ast.fix_missing_locations(bind_)
+                st0 = run_stmt(bind_, st0)
+                key_call = ast.Name(id="__key__", ctx=ast.Load())
+
+        def has_unknown(x, d=0):
+            if isinstance(x, _Unknown):
+                return True
+            if isinstance(x, (tuple, list)) and d < 4:
+                return any(has_unknown(y, d + 1) for y in x)
+            return False
+        keys = {}
+        for sym in symbols:
+            arg = (sym, _Unknown()) if pairs else sym
+            if "key" in kw:
+                st1 = st0.fork()
+                st1.env["__elem__"] = arg
+                probe = ast.Call(func=key_call, args=[ast.Name(id="__elem__", ctx=ast.Load())], keywords=[])
+                ast.copy_location(probe, call)
+                ast.fix_missing_locations(probe)
+                try:
+                    outs_ = pe.ev(probe, st1)
+                except (Unsupported, UnknownValue, AnalysisError) as ex:
+                    raise AnalysisError(f"shape interpreter: sort key `{short(kw['key'])}` at {fi.loc(call)} not evaluated for {sym!r}: {ex}")
+                vals = [v for v, _ in outs_] if isinstance(outs_, list) and outs_ and isinstance(outs_[0], tuple) and len(outs_[0]) == 2 and isinstance(outs_[0][1], PState) else [outs_]
+                if len(vals) != 1 or has_unknown(vals[0]):
+                    raise AnalysisError(f"shape interpreter: sort key `{short(kw['key'])}` at {fi.loc(call)} depends on more than the element symbol and flags known on this path")
+                keys[sym] = vals[0]
+            else:
+                keys[sym] = sym
+        if pe.gaps if hasattr(pe, "gaps") else False:
+            pass
+        try:
+            return sorted(symbols, key=lambda s_: keys[s_], reverse=rev)
+        except TypeError as ex:
+            raise AnalysisError(f"shape interpreter: sort keys at {fi.loc(call)} are not comparable: {ex}")
 
     def bind(self, target, val, env):
         env = dict(env)
@@ -656,11 +797,22 @@ class ShapeInterp:
             if isinstance(v, Fixed):
                 return [(bool(v.items), env)]
             if isinstance(v, Str):
-                return [(True, env), (False, {**env, test.id: Str()})]
+                return [(True, {**env, test.id: nonempty_part(v)}), (False, {**env, test.id: Str()})]
             if isinstance(v, SymSeq):
                 return [(True, env), (False, env)]
         if isinstance(test, ast.UnaryOp) and isinstance(test.op, ast.Not):
             return [(not t, e) for t, e in self.refine(fi, test.operand, env)]
+        if isinstance(test, ast.Compare) and len(test.ops) == 1 and isinstance(test.left, ast.Subscript) and isinstance(test.left.value, ast.Name) \
+                and isinstance(test.left.slice, ast.Name) and isinstance(test.comparators[0], ast.Constant) and isinstance(test.comparators[0].value, int) \
+                and isinstance(self._peek(fi, test.left, env), Int):
+            # counts[symbol] > 1: the refined count is remembered under the expression's text and found again when the
+            # branch reads the same expression
+            key_ = "__expr__:" + norm(test.left)
+            e0 = {**env, key_: self._peek(fi, test.left, env)}
+            probe = ast.Compare(left=ast.Name(id=key_, ctx=ast.Load()), ops=test.ops, comparators=test.comparators)
+            ast.copy_location(probe, test)
+            ast.fix_missing_locations(probe)
+            return self.refine(fi, probe, e0)
         if isinstance(test, ast.Compare) and len(test.ops) == 1 and isinstance(test.left, ast.Name) and test.left.id in env \
                 and isinstance(test.comparators[0], ast.Constant) and isinstance(test.comparators[0].value, int):
             v = env[test.left.id]
@@ -728,6 +880,8 @@ class ShapeInterp:
         raise AnalysisError(f"shape interpreter: {type(v).__name__} used as string{where}")
 
     def ev(self, fi, e, env):
+        if isinstance(e, ast.Subscript) and isinstance(e.value, ast.Name) and isinstance(e.slice, ast.Name) and ("__expr__:" + norm(e)) in env:
+            return env["__expr__:" + norm(e)]
         if isinstance(e, ast.Constant):
             if isinstance(e.value, str):
                 return lit(e.value)
@@ -742,6 +896,8 @@ class ShapeInterp:
             try:
                 v = self.repo.const(fi.module, e.id)
             except (NotConst, AnalysisError):
+                if e.id in ("sorted", "list", "tuple", "str", "reversed") and self.repo.resolve(fi.module, e.id) == ("builtin", e.id):
+                    return ("builtin", e.id)          # the function itself, handed to map()
                 raise AnalysisError(f"shape interpreter: name {e.id} at {fi.loc(e)}")
             if isinstance(v, dict):
                 return ConstMap(v)
@@ -814,6 +970,13 @@ class ShapeInterp:
             return r
         if isinstance(e, ast.BinOp) and isinstance(e.op, (ast.Add, ast.Sub)):
             a, b = self.ev(fi, e.left, env), self.ev(fi, e.right, env)
+            if isinstance(e.op, ast.Sub) and isinstance(a, (SymList, Counter_)):
+                # the keys that are not in the other list (a set: the order is open until it is sorted); a slot of the
+                # other list is there exactly when the molecule has the element, the same condition as for the key
+                sa, sb = self._as_symlist(a), self._as_symlist(b)
+                if sa is not None and sb is not None:
+                    names = {s_ for s_, _ in sb.slots}
+                    return SymList([(s_, sure) for s_, sure in sa.slots if s_ not in names], ordered=False, cids=sa.cids | sb.cids)
             if isinstance(a, Int) and isinstance(b, Int):
                 if a.lo is None or b.lo is None:
                     return Int(None)
@@ -854,6 +1017,12 @@ class ShapeInterp:
                     and all(isinstance(c, ast.Name) and c.id == g.target.id for c in g.ifs):
                 # the non-empty ones of a fixed list of texts, in order: any sub-list (an empty text drops out)
                 return SubSeq(list(it.items), nonempty=False, ordered=True) if g.ifs else it
+            if isinstance(it, SortedItems) and not g.ifs:
+                # the (symbol, count) pairs in a known order; a pair is there iff the molecule has the element
+                pieces_ = []
+                for sym in it.uni:
+                    pieces_.append((self.tostr(self.ev(fi, e.elt, self.bind(g.target, Pair(lit(sym), Int(1)), env)), fi, e), sym in it.present))
+                return SymPieces(pieces_)
             src_sl = self._as_symlist(it) if isinstance(it, (SymList, Fixed, Counter_)) else None
             if isinstance(it, AltVal):
                 return AltVal([self.ev(fi, e, {**env, "__alt__": v_}) if False else self._comp_over(fi, e, g, v_, env) for v_ in it.vals])
@@ -937,10 +1106,27 @@ class ShapeInterp:
                 return Pair(*[self.ev(fi, x, env) for x in e.elts], asc=True)     # the two ends of an edge, smaller first
             return Pair(*[self.ev(fi, x, env) for x in e.elts])
         if isinstance(e, ast.Attribute):
+            r_ = self.repo.resolve_dotted(fi.module, e) if not (isinstance(e.value, ast.Name) and e.value.id in env) else None
+            if r_ and r_[0] == "const":
+                # a constant of another module reached through the module's name (attribute.MASS)
+                return self._module_const(r_[1], r_[2], fi, e)
             b = self.ev(fi, e.value, env)
             if isinstance(b, Graph):
                 return ("view", e.attr)
         raise AnalysisError(f"shape interpreter: expression {type(e).__name__} `{short(e)}` at {fi.loc(e)}")
+
+    def _module_const(self, module, name, fi, e):
+        try:
+            v = self.repo.const(module, name)
+        except (NotConst, AnalysisError):
+            raise AnalysisError(f"shape interpreter: name {short(e)} at {fi.loc(e)}")
+        if isinstance(v, dict):
+            return ConstMap(v)
+        if isinstance(v, str):
+            return ("key", v)
+        if isinstance(v, int):
+            return Int(v)
+        return Opaque("const")
 
     def call(self, fi, e, env):
         f = e.func
@@ -973,16 +1159,44 @@ class ShapeInterp:
                 return Counter_(self.symbols)
             if q == "networkx.get_node_attributes":
                 return ("nodeattr", args[1][1] if isinstance(args[1], tuple) else None)
+            if q == "itertools.chain" and args and not e.keywords:
+                sls = [self._as_symlist(a_) for a_ in args]
+                if all(x is not None for x in sls) and not any(isinstance(a_, Counter_) for a_ in args):
+                    out_ = sls[0]
+                    for x in sls[1:]:
+                        out_ = SymList(out_.slots + x.slots, ordered=out_.ordered and x.ordered, cids=out_.cids | x.cids)
+                    return out_
             raise AnalysisError(f"shape interpreter: library call {q} at {fi.loc(e)}")
         if isinstance(f, ast.Name) and f.id not in env:
             args = [self.ev(fi, a, env) for a in e.args]
             if f.id == "sorted":
                 if any(k.arg in ("key", "reverse") for k in e.keywords):
                     a = args[0]
+                    if isinstance(a, (Counter_, SymList)) and (isinstance(a, Counter_) or not a.ordered or True):
+                        sl_ = self._as_symlist(a)
+                        order = self._key_sorted(fi, e, env, [s_ for s_, _ in sl_.slots], pairs=False)
+                        sure = dict(sl_.slots)
+                        return SymList([(s_, sure[s_]) for s_ in order], ordered=True, cids=sl_.cids)
+                    if isinstance(a, (UnsortedItems, SortedItems)):
+                        try:
+                            return SortedItems(self._key_sorted(fi, e, env, list(a.uni), pairs=True), presorted=True, present=a.present)
+                        except AnalysisError as ex:
+                            self.notes.append(str(ex))
                     if isinstance(a, UnsortedItems):
                         return UnsortedItems(a.uni)       # sorted some other way: not the grammar's order for sure
+                    if isinstance(a, tuple) and a and a[0] == "view":
+                        a = args[0] = self.view(a[1], None)
                     if isinstance(a, SymSeq):
-                        return SymSeq(a.elem, asc=False, what=a.what)
+                        kw_ = {k.arg: k.value for k in e.keywords}
+                        sel = self._selects_first(fi, kw_["key"]) if "key" in kw_ else 1
+                        rev = kw_.get("reverse")
+                        rev = False if rev is None else (rev.value if isinstance(rev, ast.Constant) and isinstance(rev.value, bool) else None)
+                        bylabel = (isinstance(a.elem, Pair) and isinstance(a.elem.items[0], Int)) or (isinstance(a.elem, Int) and "key" not in kw_)
+                        if sel and rev is not None and bylabel and not set(kw_) - {"key", "reverse"}:
+                            # sorted by the label (the first component), upwards or downwards
+                            return SymSeq(a.elem, asc=(sel == 1) != rev, what=a.what)
+                        # some other key: whether that is ascending order of the labels is not known
+                        return SymSeq(a.elem, asc=None, what=a.what)
                     if isinstance(a, Pair):
                         return Pair(*a.items, asc=False)
                 a = args[0]
@@ -993,7 +1207,7 @@ class ShapeInterp:
                 if isinstance(a, SymList) and not e.keywords:
                     return SymList(sorted(a.slots), ordered=True, cids=a.cids)
                 if isinstance(a, UnsortedItems):
-                    return SortedItems(a.uni)
+                    return SortedItems(a.uni, present=a.present)
                 if isinstance(a, Coll):
                     # sorting strings is lexicographic, not by atom index
                     return SymSeq(a.elem(), asc=False, what=a.what)
@@ -1021,6 +1235,20 @@ class ShapeInterp:
                 return a
             if f.id == "str" and args:
                 return self.tostr(args[0], fi, e)
+            if f.id == "map" and len(args) == 2 and isinstance(args[0], tuple) and args[0][:1] == ("builtin",) and not e.keywords:
+                # map(sorted, m.edges): the function applied to the symbolic element of the sequence
+                seq = args[1]
+                if isinstance(seq, tuple) and seq and seq[0] == "view":
+                    seq = self.view(seq[1], None)
+                if isinstance(seq, SymSeq):
+                    el = seq.elem
+                    fn_ = args[0][1]
+                    if fn_ == "sorted" and isinstance(el, Pair):
+                        return SymSeq(Pair(*el.items, asc=True), asc=False, what=seq.what)
+                    if fn_ in ("list", "tuple") and isinstance(el, Pair):
+                        return SymSeq(el, asc=False, what=seq.what)
+                    if fn_ == "reversed" and isinstance(el, Pair):
+                        return SymSeq(Pair(*el.items[::-1], asc=False), asc=False, what=seq.what)
             if f.id == "len":
                 return Int(0)
             if f.id in ("min", "max") and len(args) == 1 and isinstance(args[0], Pair) and all(isinstance(x_, Int) for x_ in args[0].items):
@@ -1041,7 +1269,9 @@ class ShapeInterp:
                     present = s in recv.uni
                     return Int(1, none=True) if present else Int(None, none=True)
                 if attr == "items":
-                    return UnsortedItems(recv.uni)
+                    return UnsortedItems(recv.uni, recv.present)
+                if attr == "keys" and not args:
+                    return self._as_symlist(recv)
                 if attr in ("most_common",):
                     return UnsortedItems(recv.uni)
                 if attr == "get":
@@ -1075,6 +1305,16 @@ class ShapeInterp:
                 if d is None and e.args:
                     d = e.args[0]
                 return self.view(attr, d)
+            if isinstance(recv, tuple) and recv[0] == "view" and recv[1] == "nodes" and attr == "items" and not args:
+                return self.view("nodes", ast.Constant(True))          # m.nodes.items(): (label, attribute dict) pairs
+            if isinstance(recv, Str) and attr == "format" and not e.keywords and all(p_[0] == "lit" for p_ in recv.p):
+                text_ = "".join(p_[1] for p_ in recv.p)
+                parts_ = text_.split("{}")
+                if len(parts_) == len(args) + 1 and not any("{" in x or "}" in x for x in parts_):
+                    out_ = lit(parts_[0])
+                    for a_, rest_ in zip(args, parts_[1:]):
+                        out_ = out_ + self.tostr(a_, fi, e) + lit(rest_)
+                    return out_
             if isinstance(recv, tuple) and recv[0] == "view" and attr == "data":
                 return self.view(recv[1], e.args[0] if e.args else ast.Constant(True))
             if attr == "format" and isinstance(recv, Str) and all(x[0] == "lit" for x in recv.p):
